@@ -250,18 +250,20 @@ func encFields(f models.Fields, sqField string) rt.M {
 	return out
 }
 
+// encTime: model time k = whole seconds since the model epoch (2020-01-06).  Every whole second whose k fits TLC's
+// 32-bit integers is representable: Unix 0 is k = -1578268800 (UnixK).
 func encTime(t interface{ UnixNano() int64 }) rt.M {
 	ns := t.UnixNano()
 	e := rt.DefaultTime.Epoch.UnixNano()
 	u := int64(rt.DefaultTime.Unit)
-	if (ns-e)%u == 0 && ns-e >= -1000*u && ns-e <= 1000000*u {
+	if (ns-e)%u == 0 && (ns-e)/u > -2000000000 && (ns-e)/u < 2000000000 {
 		return rt.M{"k": int((ns - e) / u)}
 	}
-	if ns == 0 {
-		return rt.M{"k": -1000000, "unix0": true}
-	}
-	return rt.M{"k": -1000001, "ns": fmt.Sprint(ns)}
+	return rt.M{"k": -2000000001, "ns": fmt.Sprint(ns)}
 }
+
+// UnixK is the model time of 1970-01-01T00:00:00Z.
+var UnixK = -int(rt.DefaultTime.Epoch.Unix())
 
 func tk(t interface{ UnixNano() int64 }) int {
 	return encTime(t)["k"].(int)
